@@ -48,11 +48,46 @@ func extractInterop(p *pkgs, f *facts) {
 	autoAtStart, autoJS := autoTLSAtStart(p)
 	dialsTLS, dialJS := hostDialsUseTLSConfig(p)
 	checkDflt, checkJS := allowedCheckCoversDefault(p)
-	f.lean = append(f.lean, fmt.Sprintf("def interop : Interop.Params := ⟨%s, %s, %s, %s, %s⟩", leanBool(dflt), leanBool(refused),
-		leanBool(autoAtStart), leanBool(dialsTLS), leanBool(checkDflt)))
+	// reattach(): before the statement that calls the reattach function there is an `if` whose condition negates a membership
+	// test of a protocol variable in c.config.AllowedProtocols and whose body returns a non-nil error; that variable is
+	// assigned from c.config.Reattach.Protocol (with the net/rpc default) and is what c.protocol is set to
+	reattachChecks := false
+	if ra := p.fn("Client", "reattach"); ra != nil {
+		callIdx, checkIdx, v := -1, -1, ""
+		for i, st := range ra.Body.List {
+			if callIdx < 0 && strings.Contains(nodeCalls(st), "reattachFunc()") {
+				callIdx = i
+			}
+			if is, ok := st.(*ast.IfStmt); ok && checkIdx < 0 {
+				c := exprString(is.Cond)
+				if strings.HasPrefix(c, "!slices.Contains(c.config.AllowedProtocols,") && blockReturnsNonNilErr(is.Body) {
+					checkIdx = i
+					v = strings.TrimSuffix(strings.TrimPrefix(c, "!slices.Contains(c.config.AllowedProtocols,"), ")")
+				}
+			}
+		}
+		fromCfg, toField := false, false
+		ast.Inspect(ra.Body, func(n ast.Node) bool {
+			if as, ok := n.(*ast.AssignStmt); ok && len(as.Lhs) == 1 && len(as.Rhs) == 1 {
+				l, r := exprString(as.Lhs[0]), exprString(as.Rhs[0])
+				if l == v && r == "c.config.Reattach.Protocol" {
+					fromCfg = true
+				}
+				if l == "c.protocol" {
+					toField = r == v
+				}
+			}
+			return true
+		})
+		reattachChecks = v != "" && checkIdx >= 0 && callIdx > checkIdx && fromCfg && toField
+	} else {
+		f.miss = append(f.miss, "Client.reattach(interop)")
+	}
+	f.lean = append(f.lean, fmt.Sprintf("def interop : Interop.Params := ⟨%s, %s, %s, %s, %s, %s⟩", leanBool(dflt), leanBool(refused),
+		leanBool(autoAtStart), leanBool(dialsTLS), leanBool(checkDflt), leanBool(reattachChecks)))
 	f.set("interop", map[string]interface{}{"defaultAllowedNetrpcOnly": dflt, "reattachMuxRefused": refused,
 		"autoTlsAtStart": autoAtStart, "autoTlsAtStartWhy": autoJS, "dialsUseTlsConfig": dialsTLS, "dialsUseTlsConfigWhy": dialJS,
-		"allowedCheckCoversDefault": checkDflt, "allowedCheckCoversDefaultWhy": checkJS})
+		"allowedCheckCoversDefault": checkDflt, "allowedCheckCoversDefaultWhy": checkJS, "reattachChecksAllowed": reattachChecks})
 }
 
 // autoTLSAtStart: `Client.Start` installs the AutoMTLS configuration itself, before the
